@@ -127,6 +127,7 @@ type Run struct {
 	MassOK      bool
 	MassBits    int
 	KnownIDs    map[string]bool
+	OpaqueFns   map[string]bool
 	sampleEvery int64
 	SampleCap   int
 	Seed        int64
